@@ -90,6 +90,12 @@ pub fn rebuild(tcp: bool, steps: &[Step], base: std::time::Instant) -> Real {
 }
 
 fn node_key(spec: &Spec, real: &Real) -> u128 {
+    static LEARNT: std::sync::Once = std::sync::Once::new();
+    LEARNT.call_once(|| {
+        let a = Real::new(spec.tcp, real.base);
+        let b = Real::new(spec.tcp, real.base);
+        snapshot::learn_instance_fields(&format!("{:?}", a.agent), &format!("{:?}", b.agent));
+    });
     let snap = snapshot::canonical(&format!("{:?}", real.agent), real.at(spec.now));
     snapshot::hash128(&format!("{}#{}", spec.canonical(), snap))
 }
@@ -356,10 +362,13 @@ impl SmModel for AgentModel {
         if let Act::Resp { id, auth, .. } = step.act {
             if let (Some(x), true) = (s.spec.live.get(&id), spec.live.contains_key(&id)) {
                 // a dropped response for a live transaction
+                if x.sealed {
+                    // (whether the snapshot is unchanged is an evidence note, not part of the witness: a
+                    // statistics counter of dropped responses changes it and breaks nothing)
+                    acc.outcome("witness: forged or unauthenticated response dropped");
+                }
                 if key == s.key {
-                    if x.sealed {
-                        acc.outcome("witness: forged or unauthenticated response dropped, state unchanged (self-loop)");
-                    }
+                    acc.outcome("note: snapshot unchanged after a dropped response (self-loop)");
                 } else {
                     // evidence note only (DESIGN.md 4.3): the futures of the new state are explored in lock-step
                     acc.outcome("note: snapshot changed after a dropped response (futures explored)");
